@@ -95,3 +95,62 @@ contract(BS + "BacktrackSolver.solve_and_queue", types={"self": SELF_T, "process
     ])},
     ensures=STREAM_ENS + [("C17.delivered", f"self.statistics[{SOLN}] - old(self.statistics)[{SOLN}] == len(emitted) - 1")],
     tags={"C11": ["C11"], "C17": ["C17"], "wf": ["C16"], "C02": ["C02"], "C01": ["C02"]}, arities=[])
+
+# ------------------------------------------------------------------ optimisation loops (C03)
+def best_cases(ex, st, tag):
+    def none_case(s):
+        s.env["best_solution"] = None
+
+    def arr_case(s):
+        obj = ArrObj("best_solution" + tag, "i64", [s.ghost_env["V"]])
+        s.heap[obj.id] = obj.fresh_term()
+        s.env["best_solution"] = Arr(obj)
+
+    return [none_case, arr_case]
+
+
+ROOT = "self.problem.shr_domains_lst"
+OBJ_LO = f"({ROOT}[self.problem.dom_indices_arr[variable_idx], 0] + self.problem.dom_offsets_arr[variable_idx])"
+OBJ_HI = f"({ROOT}[self.problem.dom_indices_arr[variable_idx], 1] + self.problem.dom_offsets_arr[variable_idx])"
+S0 = "self.shr_domains_stack"
+OBJ_D = "self.problem.dom_indices_arr[variable_idx]"
+OPT_REQ = SO_REQ + [("C03.var", "0 <= variable_idx and variable_idx < V"), ("C03.fresh", "self.stacks_top[0] == 0"), ("wf.root", "D2 == D"),
+                    ("C03.root_is_level0", f"forall(d, 0, D, {S0}[0, d, MIN] == {ROOT}[d, 0] and {S0}[0, d, MAX] == {ROOT}[d, 1])"),
+                    ("C03.i32", f"forall(d, 0, D, -2147483648 <= {ROOT}[d, 0] and {ROOT}[d, 1] <= 2147483647)")]
+
+for variant, updater, bound, other, better, measure in (
+        ("min", "nucs/solvers/solver.py::decrease_max", "MAX", "MIN", "<", f"best_solution[variable_idx] - {OBJ_LO}"),
+        ("max", "nucs/solvers/solver.py::increase_min", "MIN", "MAX", ">", f"{OBJ_HI} - best_solution[variable_idx]")):
+    OPT_INV = LOOP_INV + [
+        ("C03.top0", "self.stacks_top[0] == 0"),
+        ("C03.problem", f"same({ROOT})"),
+        ("C03.others", f"forall(d, 0, D, implies(d != {OBJ_D}, {S0}[0, d, MIN] == {ROOT}[d, 0] and {S0}[0, d, MAX] == {ROOT}[d, 1]))"),
+        ("C03.first", f"implies(best_solution is None, {S0}[0, {OBJ_D}, MIN] == {ROOT}[{OBJ_D}, 0] and {S0}[0, {OBJ_D}, MAX] == {ROOT}[{OBJ_D}, 1])"),
+        ("C03.tightened", f"implies(best_solution is not None, {S0}[0, {OBJ_D}, {bound}] + self.problem.dom_offsets_arr[variable_idx] == best_solution[variable_idx] {'- 1' if bound == 'MAX' else '+ 1'} and {S0}[0, {OBJ_D}, {other}] == {ROOT}[{OBJ_D}, {0 if other == 'MIN' else 1}])"),
+        ("C03.best_in_domain", f"implies(best_solution is not None, {OBJ_LO} <= best_solution[variable_idx] and best_solution[variable_idx] <= {OBJ_HI})"),
+    ]
+    for fn, extra_types, env, ginit, extra_inv, extra_ens in (
+        ("optimize", {}, {}, {}, [], []),
+        ("optimize_and_queue", {"processor_idx": "int", "solution_queue": "opaque"}, {"solution_queue.put": h_put}, {"emitted": "emptylist"},
+         [("C11.no_marker_yet", "forall(i, 0, len(emitted), emitted[i] == 0)")], STREAM_ENS),
+    ):
+        is_q = fn.endswith("queue")
+        types = {"self": SELF_T, "variable_idx": "int", "update_domain_fct": "opaque"}
+        types.update(extra_types)
+        lc = dict(also_modifies=["emitted"] if is_q else [], invariant=OPT_INV + extra_inv)
+        if not is_q:
+            lc["var_types"] = {"best_solution": best_cases}
+            lc["fingerprint"] = None
+            lc["decreases"] = f"ite(best_solution is None, {OBJ_HI} - {OBJ_LO} + 1, {measure})"
+        inv = list(lc["invariant"])
+        if is_q:
+            # optimize_and_queue has no best_solution variable: the last solution found plays its role through the tightened bound only
+            inv = [c for c in inv if "best_solution" not in c[1]] + [("C03.bound_inside", f"{ROOT}[{OBJ_D}, 0] <= {S0}[0, {OBJ_D}, MIN] and {S0}[0, {OBJ_D}, MAX] <= {ROOT}[{OBJ_D}, 1]")]
+        lc["invariant"] = inv
+        lc = {k: v for k, v in lc.items() if v is not None}
+        contract(BS + "BacktrackSolver." + fn, variant=variant, types=types, result="none", props=["C03", "C11", "C16"],
+            requires=OPT_REQ, env=env, ghost_init=ginit, calls={"update_domain_fct": updater},
+            loops={1: lc},
+            ensures=([("C03.result_in_domain", f"implies(result is not None, {OBJ_LO} <= result[variable_idx] and result[variable_idx] <= {OBJ_HI})"),
+                      ("C03.problem", f"same({ROOT})")] if not is_q else []) + extra_ens,
+            tags={"C03": ["C03"], "C11": ["C11"], "wf": ["C16"], "C01": ["C03"], "C02": ["C03"], "C17": ["C03"]}, arities=[])
